@@ -332,6 +332,11 @@ func classifyRequest(req *http.Request) (clientProtocolHandler, url.Values) {
 		// also use *any* content-type.
 		fallthrough
 	default:
+		if values == nil {
+			// Parse the query string now: the request line is rewritten before
+			// the request message (which may need query parameters) is decoded.
+			values = req.URL.Query()
+		}
 		return restClientProtocol{}, values
 	}
 }
